@@ -19,6 +19,7 @@ import (
 	"fmt"
 	"io"
 	"log"
+	"strings"
 	"time"
 
 	p9p "github.com/frobnitzem/go-p9p"
@@ -568,18 +569,6 @@ func runE2E(r *rep.Report, rng *prng.R) {
 	}
 	c := sx.L(sx.Sym("e2e"), sx.I(int64(msize)), l.entriesSexp(), l.batchesSexp())
 
-	ctx, cancel := context.WithTimeout(context.Background(), 120*time.Second)
-	defer cancel()
-	cc, sc := newMemPair(uint32(msize))
-	served := make(chan error, 1)
-	go func() { served <- p9p.ServeConn(ctx, sc, p9p.SSession(p9p.SFileSys(&scriptFS{l}))) }()
-	defer func() {
-		cc.Close()
-		select {
-		case <-served:
-		case <-time.After(30 * time.Second):
-		}
-	}()
 	type outcome struct {
 		stage string
 		err   error
@@ -588,36 +577,79 @@ func runE2E(r *rep.Report, rng *prng.R) {
 		lerr  error
 		ended bool
 	}
-	done := make(chan outcome, 1)
-	go func() {
-		sess, err := p9p.CSession(ctx, cc)
-		if err != nil {
-			done <- outcome{stage: "version", err: err}
-			return
+	// attempt runs the listing once.  ServeConn gives version negotiation one second of
+	// wall-clock; on a loaded machine that can expire before the exchange has happened, which
+	// says nothing about the property: such an attempt is repeated, not reported.
+	attempt := func() (o outcome, hung bool, retry bool) {
+		ctx, cancel := context.WithTimeout(context.Background(), 300*time.Second)
+		defer cancel()
+		cc, sc := newMemPair(uint32(msize))
+		served := make(chan error, 1)
+		go func() { served <- p9p.ServeConn(ctx, sc, p9p.SSession(p9p.SFileSys(&scriptFS{l}))) }()
+		done := make(chan outcome, 1)
+		go func() {
+			sess, err := p9p.CSession(ctx, cc)
+			if err != nil {
+				done <- outcome{stage: "version", err: err}
+				return
+			}
+			m, _ := sess.Version()
+			fs := p9p.CFileSys(sess)
+			root, err := fs.Attach(ctx, "u", "", nil)
+			if err != nil {
+				done <- outcome{stage: "attach", err: err, msize: m}
+				return
+			}
+			next, err := root.OpenDir(ctx)
+			if err != nil {
+				done <- outcome{stage: "opendir", err: err, msize: m}
+				return
+			}
+			got, lerr, ended := drain(ctx, next, len(l.dirs)+2)
+			done <- outcome{msize: m, got: got, lerr: lerr, ended: ended}
+		}()
+		select {
+		case o = <-done:
+			cc.Close()
+			select {
+			case <-served:
+			case <-time.After(30 * time.Second):
+			}
+			return o, false, false
+		case serr := <-served:
+			// the server left while the client was still at work
+			cc.Close()
+			select {
+			case o = <-done:
+			case <-time.After(30 * time.Second):
+			}
+			if serr != nil && strings.Contains(serr.Error(), "negotiating version") {
+				return o, false, true
+			}
+			if o.stage == "" && !o.ended && o.err == nil {
+				o = outcome{stage: "server-exit", err: serr}
+			}
+			return o, false, false
+		case <-time.After(200 * time.Second):
+			// generous: a listing takes milliseconds; only a genuine hang gets here
+			cc.Close()
+			return o, true, false
 		}
-		m, _ := sess.Version()
-		fs := p9p.CFileSys(sess)
-		root, err := fs.Attach(ctx, "u", "", nil)
-		if err != nil {
-			done <- outcome{stage: "attach", err: err, msize: m}
-			return
-		}
-		next, err := root.OpenDir(ctx)
-		if err != nil {
-			done <- outcome{stage: "opendir", err: err, msize: m}
-			return
-		}
-		got, lerr, ended := drain(ctx, next, len(l.dirs)+2)
-		done <- outcome{msize: m, got: got, lerr: lerr, ended: ended}
-	}()
+	}
 	var o outcome
-	select {
-	case o = <-done:
-	case <-time.After(100 * time.Second):
-		// generous: a listing takes milliseconds; only a genuine hang gets here
-		r.Fail("e2e.hang", fmt.Sprintf("listing over msize %d did not finish within 100 s", msize), c, nil)
-		r.Case(c, sx.L(sx.Sym("hang")), "e2e:hang", false)
-		return
+	for try := 0; ; try++ {
+		var hung, retry bool
+		o, hung, retry = attempt()
+		if retry && try < 10 {
+			r.Extra["e2e_negotiation_retries"] = try + 1
+			continue
+		}
+		if hung {
+			r.Fail("e2e.hang", fmt.Sprintf("listing over msize %d did not finish within 200 s", msize), c, nil)
+			r.Case(c, sx.L(sx.Sym("hang")), "e2e:hang", false)
+			return
+		}
+		break
 	}
 	if o.stage != "" {
 		r.Fail("e2e.setup."+o.stage, fmt.Sprintf("%s over msize %d: %v", o.stage, msize, o.err), c, nil)
